@@ -1,4 +1,5 @@
 """C15 — HTTP/2 connection tracing is transparent and attributes frames to the right call."""
+import collections
 import itertools
 import os
 import random
@@ -252,8 +253,10 @@ def gen_exchange(rng, nstreams, allow_cont=True, noise=True, goaway=None, malfor
 # ----------------------------------------------------------------------------------------------
 # ops: cutting both directions into Read/Write calls that complete the frames in the global order
 # ----------------------------------------------------------------------------------------------
-def build_ops(rng, side, prelen, frames, lens, mode, tail):
-    """frames: global list; lens[i] = (dir, nbytes).  mode: 'frame' | 'rand' | 'one' | 'max'"""
+def build_ops(rng, side, prelen, frames, lens, mode, tail, p_timeout=0.0):
+    """frames: global list; lens[i] = (dir, nbytes).  mode: 'frame' | 'rand' | 'one' | 'max'.
+    p_timeout: probability that a Read delivers its bytes together with a timeout error (not fatal: the
+    bytes must be traced like any others and the connection goes on)"""
     total = [prelen, 0]
     ends = []
     for (d, n) in lens:
@@ -266,7 +269,7 @@ def build_ops(rng, side, prelen, frames, lens, mode, tail):
         if n <= 0:
             return
         if (d == REQ) == (side == 1):
-            ops.append([0, n, 0])
+            ops.append([0, n, 2 if (p_timeout and rng.random() < p_timeout) else 0])
         else:
             ops.append([1, n, n, 0])
         pos[d] += n
@@ -323,6 +326,146 @@ def tail_ops(rng, side):
     if r < 0.86:
         return [[1, 0, 0, 3]]                            # Write fails
     return []
+
+
+# ----------------------------------------------------------------------------------------------
+# the shapes of the grammar C15_SpecL3.exchange, systematically
+# ----------------------------------------------------------------------------------------------
+GRPC = "application/grpc"
+
+
+def base_stream(sid, name, path, ncont=(0, 0, 0), unary_req=False):
+    """a gRPC stream in a fixed order, both directions interleaved, messages cut across DATA frames:
+    reqH reqD respH respD reqD(es) respD respT(es).  ncont: CONTINUATIONs of request headers / response headers / trailers"""
+    rf = [(":method", "POST"), (":scheme", "http"), (":authority", "h"), (":path", path), ("content-type", GRPC), ("te", "trailers")]
+    if name is not None:
+        rf.append(("x-test-case-name", name))
+    m2 = envelope(0, b"cde")
+    r1 = envelope(0, b"xyz")
+    return [(REQ, H, sid, 0, rf, ncont[0], -1, 0),
+            (REQ, D, sid, 0, envelope(0, b"ab") + m2[:3], -1),
+            (RESP, H, sid, 0, [(":status", "200"), ("content-type", GRPC)], ncont[1], -1, 0),
+            (RESP, D, sid, 0, r1[:4], -1),
+            (REQ, D, sid, 1, m2[3:], -1),
+            (RESP, D, sid, 0, r1[4:] + envelope(1, b""), -1),
+            (RESP, H, sid, 1, [("grpc-status", "0"), ("grpc-message", "ok")], ncont[2], -1, 0)]
+
+
+def shape_streams(rng):
+    """-> list of (label, frames of ONE stream sid 1) covering the productions of the grammar"""
+    out = []
+    b = base_stream(1, "Suite/g/base", "/svc.S/G")
+    out.append(("base", b))
+    # RST_STREAM by either peer after every prefix (k = 7: after the end, a late frame)
+    for k in range(1, len(b) + 1):
+        for d in (REQ, RESP):
+            out.append(("rst", base_stream(1, "Suite/g/rst%d%d" % (k, d), "/svc.S/G")[:k] + [(d, RST, 1, 8 if d == REQ else 2)]))
+    # late DATA / RST after the end
+    out.append(("late", base_stream(1, "Suite/g/late", "/svc.S/G") + [(REQ, D, 1, 0, b"zz", -1), (RESP, RST, 1, 0), (REQ, RST, 1, 8)]))
+    # CONTINUATION chains on request headers, response headers, trailers
+    for nc in ((1, 0, 0), (0, 2, 0), (0, 0, 3), (3, 2, 1)):
+        out.append(("cont", base_stream(1, "Suite/g/cont%d%d%d" % nc, "/svc.S/G", ncont=nc)))
+    # no test name
+    out.append(("unnamed", base_stream(1, None, "/svc.S/G")))
+    out.append(("unnamed", base_stream(1, None, "/svc.S/G")[:3] + [(RESP, RST, 1, 2)]))
+    rf = lambda n: [(":method", "POST"), (":scheme", "http"), (":authority", "h"), (":path", "/svc.S/Z"), ("content-type", GRPC),
+                    ("x-test-case-name", n)]
+    rh = [(":status", "200"), ("content-type", GRPC)]
+    tr = [("grpc-status", "0")]
+    # trailers-only responses; request without body (END_STREAM on HEADERS); zero DATA in either direction
+    out.append(("trailers-only", [(REQ, H, 1, 1, rf("Suite/g/to1"), 0, -1, 0), (RESP, H, 1, 1, rh + [("grpc-status", "12")], 0, -1, 0)]))
+    out.append(("trailers-only", [(REQ, H, 1, 0, rf("Suite/g/to2"), 0, -1, 0), (RESP, H, 1, 1, rh + [("grpc-status", "12")], 1, -1, 0),
+                                  (REQ, D, 1, 1, envelope(0, b"q"), -1)]))
+    out.append(("zero-data", [(REQ, H, 1, 1, rf("Suite/g/zd1"), 0, -1, 0), (RESP, H, 1, 0, rh, 0, -1, 0), (RESP, H, 1, 1, tr, 0, -1, 0)]))
+    out.append(("zero-data", [(REQ, H, 1, 0, rf("Suite/g/zd2"), 0, -1, 0), (REQ, D, 1, 1, b"", -1), (RESP, H, 1, 0, rh, 0, -1, 0),
+                              (RESP, D, 1, 1, b"", -1)]))
+    # request trailers
+    out.append(("req-trailers", [(REQ, H, 1, 0, rf("Suite/g/rt"), 0, -1, 0), (REQ, D, 1, 0, envelope(0, b"abc"), -1),
+                                 (RESP, H, 1, 0, rh, 0, -1, 0), (REQ, H, 1, 1, [("x-req-trailer", "t")], 1, -1, 0),
+                                 (RESP, D, 1, 0, envelope(0, b"r"), -1), (RESP, H, 1, 1, tr, 0, -1, 0)]))
+    # left open
+    out.append(("open", base_stream(1, "Suite/g/open", "/svc.S/G")[:4]))
+    return out
+
+
+def resid(frames, sid):
+    """the same stream on another id"""
+    return [f[:2] + (sid,) + f[3:] for f in frames]
+
+
+def count_shapes(frames, cnt):
+    """which productions of the grammar an abstract exchange (without malformed frames) goes through"""
+    st = {}
+    for f in frames:
+        d, k = f[0], f[1]
+        if k in (H, D, RST):
+            sid = f[2]
+            s = st.get(sid)
+            if s is None:
+                if k == H and d == REQ:
+                    named = any(n == "x-test-case-name" for n, _ in f[4])
+                    s = st[sid] = {"q": not f[3], "p": False, "done": False, "qd": 0, "pd": 0}
+                    cnt["streams"] += 1
+                    cnt["stream-unnamed" if not named else "stream-named"] += 1
+                    if f[3]:
+                        cnt["req-end-on-headers"] += 1
+                    if f[5] >= 1:
+                        cnt["continuation-chain"] += 1
+                    if f[5] >= 2:
+                        cnt["continuation-chain>=2"] += 1
+                continue
+            if s["done"]:
+                cnt["late-data" if k == D else "late-rst" if k == RST else "late-headers"] += 1
+                continue
+            if k == H:
+                if f[5] >= 1:
+                    cnt["continuation-chain"] += 1
+                if f[5] >= 2:
+                    cnt["continuation-chain>=2"] += 1
+                if d == REQ:
+                    cnt["req-trailers"] += 1
+                    if f[3]:
+                        s["q"] = False
+                elif not s["p"]:
+                    s["p"] = True
+                    if f[3]:
+                        cnt["resp-trailers-only"] += 1
+                        s["done"] = True
+                else:
+                    cnt["resp-trailers"] += 1
+                    if s["pd"] == 0:
+                        cnt["resp-zero-data"] += 1
+                    if f[3]:
+                        s["done"] = True
+            elif k == D:
+                s["qd" if d == REQ else "pd"] += 1
+                if f[3]:
+                    if d == REQ:
+                        s["q"] = False
+                        if s["qd"] == 1 and not f[4]:
+                            cnt["req-zero-data"] += 1
+                    else:
+                        s["done"] = True
+                        if s["pd"] == 1 and not f[4]:
+                            cnt["resp-zero-data"] += 1
+            else:
+                cnt["rst-by-%s/req-%s/resp-%s" % ("client" if d == REQ else "server", "open" if s["q"] else "closed",
+                                                 "open" if s["p"] else "none")] += 1
+                s["done"] = True
+        elif k == GOAWAY:
+            live = [sid for sid, s in st.items() if not s["done"]]
+            lo = [x for x in live if x <= f[2]]
+            hi = [x for x in live if x > f[2]]
+            cnt["goaway"] += 1
+            if lo and hi:
+                cnt["goaway-open-streams-both-sides"] += 1
+            elif hi:
+                cnt["goaway-open-streams-above-only"] += 1
+            elif lo:
+                cnt["goaway-open-streams-below-only"] += 1
+            for x in hi:
+                st[x]["done"] = True
+                cnt["goaway-abandons-req-%s/resp-%s" % ("open" if st[x]["q"] else "closed", "open" if st[x]["p"] else "none")] += 1
 
 
 class C15(Prop):
@@ -393,6 +536,9 @@ class C15(Prop):
         core.run_go(ctx.bin("tr"), self.packages["tr"], "/dev/null", out, timeout=120, testname="TestVerifC15Alloc")
         body = open(out).read().strip()
         ctx.notes["alloc_probe"] = body
+        # how often each production of the grammar C15_SpecL3.exchange (and GOAWAY / bytes-with-error shape) occurred in
+        # the generated exchanges of this run (abstract exchanges, before they are multiplied by chunkings and sides)
+        ctx.notes["grammar_shapes"] = dict(sorted(getattr(self, "_shapes", {}).items()))
         try:
             alloc = int(body.split("total_alloc_delta=")[1].split()[0])
         except (IndexError, ValueError):
@@ -436,6 +582,8 @@ class C15(Prop):
     def generate(self, rng, tier):
         quick = tier == "quick"
         items = []   # (preface, frames, modes, sides)
+        shapes = self._shapes = collections.Counter()
+        malformed_items = set()
         # (1) bounded-exhaustive: every interleaving of two short streams (frame-aligned and byte-wise)
         srng = random.Random(rng.randrange(1 << 30))
         for variant in range(4 if quick else 16):
@@ -454,7 +602,10 @@ class C15(Prop):
             goaway = None
             if r < 0.2:
                 goaway = (rng.choice([0, 1, 3, 5, 2 * ns + 1]), rng.choice([0, 0, 2, 11]))
-            pre, frames = gen_exchange(rng, ns, noise=rng.random() < 0.7, goaway=goaway, malformed=rng.random() < 0.15,
+            malformed = rng.random() < 0.15
+            if malformed:
+                malformed_items.add(len(items))
+            pre, frames = gen_exchange(rng, ns, noise=rng.random() < 0.7, goaway=goaway, malformed=malformed,
                                        retry=rng.random() < 0.2)
             # timer expiry of a parked name somewhere after the middle
             if rng.random() < 0.15:
@@ -465,19 +616,66 @@ class C15(Prop):
                 frames = frames[:at] + [(REQ, CLOSE, 0)] + frames[at:]
             modes = ["rand", rng.choice(["frame", "max", "rand", "one" if k % 6 == 0 else "rand"])]
             items.append((pre, frames, modes, [k % 2] if k % 5 else [0, 1]))
+        # (2b) the productions of the grammar C15_SpecL3.exchange, each with a concurrent stream interleaved at random:
+        # RST_STREAM by either peer after every prefix, late frames, CONTINUATION chains, no test name, trailers-only,
+        # zero DATA, request trailers, left open
+        grng = random.Random(rng.randrange(1 << 30))
+        n_shape = 0
+        for label, one in shape_streams(grng):
+            other = base_stream(3, "Suite/g/other", "/svc.S/O") if grng.random() < 0.5 else \
+                stream_seq(grng, *mk_stream(grng, 3, "Suite/g/other", "/svc.S/O", True, ending="normal"))
+            frames = [one[0]] + merge(grng, [one[1:], other])
+            items.append((PREFACE, frames, ["frame", "rand"], [n_shape % 2]))
+            n_shape += 1
+        # (2c) GOAWAY at every position of three interleaved streams (ids 1, 3, 5), last-stream-id 1 and 3: open streams
+        # on both sides of the cut, in every phase
+        three = merge(grng, [base_stream(1, "Suite/g/ga1", "/svc.S/A"), resid(base_stream(1, "Suite/g/ga3", "/svc.S/B"), 3),
+                             resid(base_stream(1, None if quick else "Suite/g/ga5", "/svc.S/C"), 5)])
+        for pos in range(1, len(three) + 1):
+            for last in (1, 3):
+                if not quick or (pos + last // 2) % 2 == 0 or pos < 8:
+                    code = grng.choice([0, 0, 2])
+                    items.append((PREFACE, three[:pos] + [(RESP, GOAWAY, last, code, b"")] + three[pos:], ["frame"], [pos % 2]))
+        for i, it in enumerate(items):
+            if i not in malformed_items:
+                count_shapes(it[1], shapes)
         synth = self._synth([(p, f) for p, f, _, _ in items])
         fuzz_src = []
         for (pre, frames, modes, sides), (reqb, respb, reqt, respt, lens) in zip(items, synth):
             for side in sides:
                 for mode in modes:
                     tail = tail_ops(rng, side)
-                    ops = build_ops(rng, side, len(pre), frames, lens, mode, tail)
+                    # Reads that deliver bytes TOGETHER with an error: timeouts anywhere (not fatal), and io.EOF / another
+                    # error on the last Read that carries bytes (the bytes are traced first, then cancelAll)
+                    p_timeout = rng.choice([0, 0, 0, 0.1, 0.4, 1.0])
+                    ops = build_ops(rng, side, len(pre), frames, lens, mode, tail, p_timeout)
+                    if rng.random() < 0.15:
+                        idx = [i for i, o in enumerate(ops) if o[0] == 0 and o[1] > 0]
+                        if idx:
+                            ops[idx[-1]] = [0, ops[idx[-1]][1], rng.choice([1, 3])]
                     if rng.random() < 0.12:
                         # a read timeout in the middle is not fatal: nothing may be cancelled
                         ops.insert(rng.randint(0, len(ops)), [0, 0, 2])
+                    for o in ops:
+                        if o[0] == 0 and o[1] > 0 and o[2] != 0:
+                            shapes["read-bytes-with-%s" % {1: "eof", 2: "timeout", 3: "error"}[o[2]]] += 1
                     yield self._case("c15.conn", side, reqb, respb, reqt, respt, ops)
             if len(fuzz_src) < 200:
                 fuzz_src.append((reqb, respb))
+        # (2d) bytes with an error at EVERY Read of two exchanges (one op per frame, and cut inside the frames), both
+        # sides: timeout (goes on), io.EOF and another error (cancelAll after the bytes were traced) - including the Read
+        # that carries the trailers / END_STREAM
+        ex1 = base_stream(1, "Suite/g/err1", "/svc.S/E")
+        ex2 = [ex1[0]] + merge(grng, [ex1[1:], resid(base_stream(1, "Suite/g/err3", "/svc.S/F"), 3)])
+        for (reqb, respb, reqt, respt, lens), frames in zip(self._synth([(PREFACE, ex1), (PREFACE, ex2)]), (ex1, ex2)):
+            for side in (0, 1):
+                for mode in ("frame", "rand"):
+                    base = build_ops(grng, side, len(PREFACE), frames, lens, mode, [[2, 0]])
+                    for i, op in enumerate(base):
+                        if op[0] == 0 and op[1] > 0:
+                            for e in (2, 1, 3):
+                                shapes["read-bytes-with-%s" % {1: "eof", 2: "timeout", 3: "error"}[e]] += 1
+                                yield self._case("c15.conn", side, reqb, respb, reqt, respt, base[:i] + [[0, op[1], e]] + base[i + 1:])
         # (3) every split of a short exchange into two reads / two writes
         pre, frames = gen_exchange(random.Random(7), 2, noise=False)
         (reqb, respb, reqt, respt, lens), = self._synth([(pre, frames)])
@@ -485,7 +683,10 @@ class C15(Prop):
         for i, op in enumerate(base):
             if op[0] in (0, 1) and op[1] > 1:
                 for c in range(1, op[1]):
-                    two = [[0, c, 0], [0, op[1] - c, 0]] if op[0] == 0 else [[1, c, c, 0], [1, op[1] - c, op[1] - c, 0]]
+                    two = [[0, c, 2 if c % 3 == 0 else 0], [0, op[1] - c, 0]] if op[0] == 0 else \
+                        [[1, c, c, 0], [1, op[1] - c, op[1] - c, 0]]
+                    if two[0][0] == 0 and two[0][2] == 2:
+                        shapes["read-bytes-with-timeout"] += 1
                     yield self._case("c15.conn", 1, reqb, respb, reqt, respt, base[:i] + two + base[i + 1:])
         # (4) arbitrary bytes and mutated valid streams: passthrough and never-crash
         nf = 500 if quick else 20000
